@@ -131,7 +131,7 @@ theorem advanceLine_LS {src al} {k ls p} {sA sB : St} (h : DR src al k ls p sA s
       have h2 := lineEnd_ge (quotePrefix src) (p := p + 2 * (k + 1)) (by omega)
       omega
   rw [hBend] at hb
-  refine S2.ok ⟨h.s.r.tf, ?_, ?_, h.s.n, h.s.c.loose, h.a, fun _ => ⟨h.s.c.blockOffset, h.s.c.blockIndent⟩⟩
+  refine S2.ok ⟨h.s.r.tf, ?_, ?_, h.s.n, h.s.c.loose, h.a, fun _ => ⟨h.s.c.blockOffset, h.s.c.blockIndent⟩, h.f⟩
   · simpa using ha
   · have e : lineEnd src ls + 2 * (k + 1) = lineEnd src ls + 2 * (k + 1) := rfl
     simpa using hb
@@ -200,8 +200,8 @@ def SInv (src : Bytes) (k : Nat) (oA : List Block) (stA stB : List LineStat) : P
 theorem bqStat_eq (src : Bytes) (k ls : Nat) : bqStat src k ls = bqE (k : Int) := rfl
 
 /-- the whole-run goal: B's per-line loop ends the parse, in a store related to A's final store -/
-def Goal (src : Bytes) (al : BP → Bool) (fB : Nat) (k : Nat) (oA : List Block) (stA : List LineStat) (sB : St) (sA' : St) : Prop :=
-  ∀ stB, SInv src k oA stA stB →
+def Goal (src : Bytes) (al : BP → Bool) (fB : Nat) (k : Nat) (oA : List Block) (stA eff : List LineStat) (sB : St) (sA' : St) : Prop :=
+  ∀ stB, SInv src k oA stA stB → LStG (k : Int) eff stB →
     ∃ x sB', linesLoop 0 fB stB sB = .ok ((true, x), sB') ∧ FRel src al sA'.nodes sB'.nodes
 
 /-- A's reader ended behind the last line -/
@@ -219,9 +219,10 @@ theorem bind_inv {α β} {m : M α} {f : α → M β} {s : St} {b : β} {s' : St
 def MainP (src : Bytes) (al : BP → Bool) (fB : Nat) : Prop :=
   ∀ (k ls : Nat) (sA sB : St), LS src al k ls sA sB → L.StableL src 0 sA → Pos src k ls → nlCount src + 2 ≤ fB + k →
     ∀ sA',
-      (sA.pc.opened = [] → ∀ sf lines fo stA, (FL src → lines = 0) →
-        (skipFrom sf lines >>= blocksBody fo stA) sA = .ok ((), sA') → Goal src al fB k sA.pc.opened stA sB sA') ∧
-      (sA.pc.opened ≠ [] → ∀ fi fo stA, resume fo fi stA sA = .ok ((), sA') → Goal src al fB k sA.pc.opened stA sB sA')
+      (sA.pc.opened = [] → ∀ sf lines fo stA, (FL src → lines = 0) → 0 ≤ lines →
+        (skipFrom sf lines >>= blocksBody fo stA) sA = .ok ((), sA') →
+        Goal src al fB k sA.pc.opened stA (if (lines != 0) = true then [] else stA) sB sA') ∧
+      (sA.pc.opened ≠ [] → ∀ fi fo stA, resume fo fi stA sA = .ok ((), sA') → Goal src al fB k sA.pc.opened stA stA sB sA')
 
 theorem advanceLine_run' (s : St) : advanceLine s = .ok ((), { s with r := s.r.advanceLine }) := rfl
 
@@ -230,7 +231,8 @@ theorem afterLine {src al} (ns : NS src) {f : Nat} (ih : MainP src al f) {k ls p
     (hd : DR src al k ls p sA1 sB1) (hfuel : nlCount src + 2 ≤ f + (k + 1)) {sA' : St}
     (fo fi : Nat) (stA : List LineStat)
     (hA : (advanceLine >>= fun _ => resume fo fi stA) sA1 = .ok ((), sA')) (stB : List LineStat)
-    (hsi : SInv src (k + 1) sA1.pc.opened stA stB) (hst1 : L.StableL src 0 sA1) :
+    (hsi : SInv src (k + 1) sA1.pc.opened stA stB) (hst1 : L.StableL src 0 sA1)
+    (hg : LStG (((k + 1 : Nat)) : Int) stA stB) :
     ∃ x sB', (advanceLine >>= fun _ => linesLoop 0 f stB) sB1 = .ok ((true, x), sB') ∧
       FRel src al sA'.nodes sB'.nodes := by
   obtain ⟨u, sA2, eA, hA2⟩ := bind_inv hA
@@ -253,8 +255,8 @@ theorem afterLine {src al} (ns : NS src) {f : Nat} (ih : MainP src al f) {k ls p
       | zero => cases hA2
       | succ fo =>
         rw [blocksLoop_eq] at hA2
-        exact h1 ho _ 0 _ _ (fun _ => rfl) hA2 stB hsi
-  · exact h2 ho _ _ _ hA2 stB hsi
+        exact h1 ho _ 0 _ _ (fun _ => rfl) (Int.le_refl _) hA2 stB hsi hg
+  · exact h2 ho _ _ _ hA2 stB hsi hg
 
 /-! ### the end of the source -/
 
@@ -279,9 +281,9 @@ theorem advanceLine_run (s : St) : advanceLine s = .ok ((), { s with r := s.r.ad
 theorem eofNil {src al k ls} {sA sB : St} (h : LS src al k ls sA sB)
     (he : ls = src.length ∧ (quotePrefix src).length = ls + 2 * k) (ho : sA.pc.opened = []) (f : Nat) {sA' : St}
     (sf : Nat) (lines : Int) (fo : Nat) (stA : List LineStat)
-    (hA : (skipFrom (sf + 1) lines >>= blocksBody fo stA) sA = .ok ((), sA')) :
-    Goal src al (f + 1) k sA.pc.opened stA sB sA' := by
-  intro stB _
+    (hA : (skipFrom (sf + 1) lines >>= blocksBody fo stA) sA = .ok ((), sA')) (eff : List LineStat) :
+    Goal src al (f + 1) k sA.pc.opened stA eff sB sA' := by
+  intro stB _ _
   obtain ⟨r1, e1⟩ := skipFrom_eof (he.1 ▸ h.ra) sf lines
   rw [bind_run e1, blocksBody_false] at hA
   cases hA
@@ -298,7 +300,7 @@ theorem eofNil {src al k ls} {sA sB : St} (h : LS src al k ls sA sB)
   have ec := closeBq_only (sB := { sB with r := rB }) hob hp1
   have hL : ((([bqBlock] : List Block).length : Nat) : Int) - 1 = 0 := rfl
   rw [hL] at eB
-  refine ⟨stB, { r := rB.advanceLine, nodes := sB.nodes, pc := { sB.pc with opened := [] } }, ?_, h.n, h.a.u, h.a.nk⟩
+  refine ⟨stB, { r := rB.advanceLine, nodes := sB.nodes, pc := { sB.pc with opened := [] } }, ?_, h.n, h.a.u, h.a.nk, h.f⟩
   show StateT.bind _ _ sB = _
   unfold StateT.bind
   rw [hL, eB, bind_run ec, bind_run (advanceLine_run _)]
@@ -309,14 +311,14 @@ theorem eofNil {src al k ls} {sA sB : St} (h : LS src al k ls sA sB)
 theorem closeAll_anyReader {src al} (ps : PS src al) (fr : Frames al) (h0 : LineAt src 0 0) (tf : ∀ c ∈ src, c ≠ 9)
     {sA sB : St} (hsA : sA.r.source = src) (hsB : sB.r.source = quotePrefix src)
     (hn : StoreRel src sA.nodes sB.nodes) (hc : CtxRel sA.pc sB.pc) (ha : AInv al sA.pc sA.nodes)
-    (L : Int) (hL : L = (sA.pc.opened.length : Int) - 1) {sA2 : St} (hA : closeBlocks L 0 sA = .ok ((), sA2)) :
+    (hfe : FEc al sA.nodes sB.nodes) (L : Int) (hL : L = (sA.pc.opened.length : Int) - 1) {sA2 : St} (hA : closeBlocks L 0 sA = .ok ((), sA2)) :
     ∃ sB2, closeBlocks (L + 1) 0 sB = .ok ((), sB2) ∧ FRel src al sA2.nodes sB2.nodes := by
   -- readers inside line 0
   have hiA : RI src (Reader.new src) ⟨0, 0, 0⟩ := ri_init src
   have hiB0 : RI (quotePrefix src) (initSt (quotePrefix src)).r ⟨((0 : Nat) : Int), 0 + 2 * 0, 0⟩ := ri_init (quotePrefix src)
   obtain ⟨rB, _, hiB⟩ := bqProcess_marker h0 hiB0
   have hd : DR src al 0 0 0 { sA with r := Reader.new src } { sB with r := rB } :=
-    ⟨⟨⟨tf, InL.start h0, hiA, hiB⟩, hn, hc⟩, ha⟩
+    ⟨⟨⟨tf, InL.start h0, hiA, hiB⟩, hn, hc⟩, ha, hfe⟩
   have eA := closeBlocks_rind L 0 sA (Reader.new src) (by rw [hsA]; rfl)
   rw [hA] at eA
   simp only [Except.map] at eA
@@ -343,8 +345,8 @@ structure Cls (src : Bytes) (al : BP → Bool) : Prop where
 theorem eofOpen {src al} (cl : Cls src al) {k ls} {sA sB : St} (h : LS src al k ls sA sB)
     (he : ls = src.length ∧ (quotePrefix src).length = ls + 2 * k) (ho : sA.pc.opened ≠ []) (f : Nat) {sA' : St}
     (fi fo : Nat) (stA : List LineStat) (hA : resume fo (fi + 1) stA sA = .ok ((), sA')) :
-    Goal src al (f + 1) k sA.pc.opened stA sB sA' := by
-  intro stB _
+    Goal src al (f + 1) k sA.pc.opened stA stA sB sA' := by
+  intro stB _ _
   unfold resume at hA
   obtain ⟨z, sA1, hz, hA1⟩ := bind_inv hA
   rw [linesLoop_ne fi stA sA ho] at hz
@@ -374,7 +376,7 @@ theorem eofOpen {src al} (cl : Cls src al) {k ls} {sA sB : St} (h : LS src al k 
   have hLB : (sB.pc.opened.length : Int) - 1 = ((sA.pc.opened.length : Int) - 1) + 1 := by
     rw [hobB]; simp only [List.length_cons, List.length_map]; omega
   obtain ⟨sB2, ecl, hrel⟩ := closeAll_anyReader cl.ps cl.fr cl.h0 cl.tf (sA := { sA with r := rA })
-    (sB := { sB with r := rB }) hrA.source hrB.source h.n hcr h.a _ rfl hcl
+    (sB := { sB with r := rB }) hrA.source hrB.source h.n hcr h.a h.f _ rfl hcl
   refine ⟨stB, { sB2 with r := sB2.r.advanceLine }, ?_, hrel⟩
   show StateT.bind _ _ sB = _
   unfold StateT.bind
@@ -391,9 +393,10 @@ theorem lineBlankNil {src al} (cl : Cls src al) {f : Nat} (ih : MainP src al f) 
     (h : LS src al k ls sA sB) (hsl : L.StableL src 0 sA) (hl : LineAt src k ls) (ho : sA.pc.opened = [])
     (hb : isBlank (sub src ls (lineEnd src ls)) = true) (hfuel : nlCount src + 2 ≤ f + 1 + k) {sA' : St}
     (sf : Nat) (lines : Int) (fo : Nat) (stA : List LineStat)
+    (hlines0 : 0 ≤ lines)
     (hA : (skipFrom (sf + 1) lines >>= blocksBody fo stA) sA = .ok ((), sA')) :
-    Goal src al (f + 1) k sA.pc.opened stA sB sA' := by
-  intro stB _
+    Goal src al (f + 1) k sA.pc.opened stA (if (lines != 0) = true then [] else stA) sB sA' := by
+  intro stB _ hg
   have hnfl : ¬ FL src := fun hfl => by rw [hfl k ls hl] at hb; cases hb
   obtain ⟨r1, e1, hr1⟩ := skipFrom_blank hl h.ra hb sf lines
   rw [rebind e1] at hA
@@ -430,10 +433,16 @@ theorem lineBlankNil {src al} (cl : Cls src al) {f : Nat} (ih : MainP src al f) 
   have hls : LS src al (k + 1) (lineEnd src ls) { sA with r := r1 }
       { r := r''.advanceLine, nodes := sB.nodes, pc := { sB.pc with blockOffset := bo, blockIndent := bi } } :=
     ⟨h.tf, hr1, by simpa using hadv, h.n, ⟨h.c.opened, h.c.tmpPara, h.c.fence, h.c.skipList, h.c.emptyItemBlank⟩, h.a,
-      fun hne => absurd ho hne⟩
+      (fun hne => absurd ho hne), h.f⟩
   obtain ⟨h1, _⟩ := ih (k + 1) (lineEnd src ls) _ _ hls (hsl.congr_r r1) (pos_next hl) (by omega) sA'
-  obtain ⟨x, sB', eL, hrel⟩ := h1 ho sf (lines + 1) fo stA (fun hfl => absurd hfl hnfl) hA (stB ++ [bqStat src k ls])
+  obtain ⟨x, sB', eL, hrel⟩ := h1 ho sf (lines + 1) fo stA (fun hfl => absurd hfl hnfl) (by omega) hA (stB ++ [bqStat src k ls])
     (fun hfl => absurd hfl hnfl)
+    (by
+      have hne : ((lines + 1) != 0) = true := by
+        have : lines + 1 ≠ 0 := by omega
+        simpa using this
+      rw [if_pos hne, bqStat_eq, show ((k + 1 : Nat) : Int) = (k : Int) + 1 by omega]
+      exact lstG_reset hg.bB)
   refine ⟨x, sB', ?_, hrel⟩
   show StateT.bind _ _ sB = _
   unfold StateT.bind
@@ -451,8 +460,8 @@ theorem lineOpenNil {src al} (cl : Cls src al) {f : Nat} (ih : MainP src al f) {
     (hb : isBlank (sub src ls (lineEnd src ls)) = false) (hfuel : nlCount src + 2 ≤ f + 1 + k) {sA' : St}
     (sf : Nat) (lines : Int) (fo : Nat) (stA : List LineStat) (hlines : FL src → lines = 0)
     (hA : (skipFrom (sf + 1) lines >>= blocksBody fo stA) sA = .ok ((), sA')) :
-    Goal src al (f + 1) k sA.pc.opened stA sB sA' := by
-  intro stB hsi
+    Goal src al (f + 1) k sA.pc.opened stA (if (lines != 0) = true then [] else stA) sB sA' := by
+  intro stB hsi hg
   obtain ⟨r1, e1, hr1⟩ := skipFrom_line hl h.ra hb sf lines
   rw [bind_run e1] at hA
   unfold blocksBody at hA
@@ -471,7 +480,7 @@ theorem lineOpenNil {src al} (cl : Cls src al) {f : Nat} (ih : MainP src al f) {
   rw [hL] at eH
   simp only [beq_self_eq_true, if_true] at eH
   have hdrl : DRL src al k ls ls { sA with r := r1 } { sB with r := r' } :=
-    ⟨⟨h.tf, InL.start hl, hr1, hR.b⟩, h.n, h.c, h.a⟩
+    ⟨⟨h.tf, InL.start hl, hr1, hR.b⟩, h.n, h.c, h.a, h.f⟩
   have hline1 : r1.line = (k : Int) := by
     have := hr1.abs.line; simpa [clearLo] using this
   have hstats : FL src → (if (lines != 0) = true then blankStats r1.line lines sA.pc.opened.length else stA) = stA := by
@@ -484,7 +493,7 @@ theorem lineOpenNil {src al} (cl : Cls src al) {f : Nat} (ih : MainP src al f) {
     rw [hx, hl', isBlankLine_nb0 _ stA (hne ho) hlst.nA, bqStat_eq,
       isBlankLine_nb0 _ _ (by simp) (nb0_bq hlst.nB)]
   obtain ⟨db, sB2, eOB, _, ⟨p', hDR⟩, hopens⟩ := openBlocks_sim cl.ps cl.fr cl.ot cl.ns cl.tr _
-    (isBlankLine ((k : Int) - 1) 0 (stB ++ [bqStat src k ls])) (hbf _ _ (fun hfl => ⟨hline1, hstats hfl⟩)) 0 hdrl d sA2 hd
+    (isBlankLine ((k : Int) - 1) 0 (stB ++ [bqStat src k ls])) (hbf _ _ (fun hfl => ⟨hline1, hstats hfl⟩)) 0 hdrl h.n.pos (fun _ => .inr rfl) d sA2 hd
   have hdn : d = OpenResult.newBlocksOpened := by
     refine hopens ho ?_
     unfold NBV viewA
@@ -502,6 +511,12 @@ theorem lineOpenNil {src al} (cl : Cls src al) {f : Nat} (ih : MainP src al f) {
         rw [show ((k + 1 : Nat) : Int) = (k : Int) + 1 by omega]
         exact this)
       (stable_openBlocks0 (s := { sA with r := r1 }) (hsl.congr_r r1) ho hr1 (padOK_zero _ _) hd)
+      (by
+        have hlen0 : sA.pc.opened.length = 0 := by rw [ho]; rfl
+        have heff : (if (lines != 0) = true then blankStats r1.line lines sA.pc.opened.length else stA) =
+            (if (lines != 0) = true then [] else stA) := by rw [hlen0]; rfl
+        rw [heff, bqStat_eq, show ((k + 1 : Nat) : Int) = (k : Int) + 1 by omega]
+        exact lstG_next (curG_start hg))
     refine ⟨x, sB', ?_, hrel⟩
     show StateT.bind _ _ sB = _
     unfold StateT.bind
@@ -515,8 +530,8 @@ theorem lineOpenSome {src al} (cl : Cls src al) {f : Nat} (ih : MainP src al f) 
     (h : LS src al k ls sA sB) (hsl : L.StableL src 0 sA) (hl : LineAt src k ls) (ho : sA.pc.opened ≠ [])
     (hfuel : nlCount src + 2 ≤ f + 1 + k) {sA' : St}
     (fi fo : Nat) (stA : List LineStat)
-    (hA : resume fo (fi + 1) stA sA = .ok ((), sA')) : Goal src al (f + 1) k sA.pc.opened stA sB sA' := by
-  intro stB hsi
+    (hA : resume fo (fi + 1) stA sA = .ok ((), sA')) : Goal src al (f + 1) k sA.pc.opened stA stA sB sA' := by
+  intro stB hsi hg
   unfold resume at hA
   obtain ⟨z, sA1, hz, hA1⟩ := bind_inv hA
   rw [linesLoop_ne fi stA sA ho] at hz
@@ -536,11 +551,11 @@ theorem lineOpenSome {src al} (cl : Cls src al) {f : Nat} (ih : MainP src al f) 
   simp only [Bool.false_eq_true, if_false] at eH
   have hstrict := h.strict ho
   have hDR : DR src al k ls ls sA { sB with r := r' } :=
-    ⟨⟨hR, h.n, ⟨hstrict.1, hstrict.2, h.c.opened, h.c.tmpPara, h.c.fence, h.c.skipList, h.c.emptyItemBlank⟩⟩, h.a⟩
+    ⟨⟨hR, h.n, ⟨hstrict.1, hstrict.2, h.c.opened, h.c.tmpPara, h.c.fence, h.c.skipList, h.c.emptyItemBlank⟩⟩, h.a, h.f⟩
   obtain ⟨yb, sB2, eLB, hyb, hrel⟩ := lineLoop_sim cl.ps cl.fr cl.ot cl.ns cl.tr sA.pc.opened ((sA.pc.opened.length : Int) - 1)
     sA.pc.opened (fun _ hb => hb) 0 (Int.le_refl _) stA (stB ++ [bqStat src k ls]) hDR rfl rfl
     (fun hfl => by rw [bqStat_eq]; exact cur_start (hsi hfl).1) (fun _ => rfl) [] (mid_start hsl rfl h.ra (padOK_zero _ _))
-    y sA2 hy
+    (by rw [bqStat_eq]; exact curG_start hg) y sA2 hy
   obtain ⟨oA, blA⟩ := y
   obtain ⟨oB, blB⟩ := yb
   simp only at hyb hrel
@@ -562,7 +577,7 @@ theorem lineOpenSome {src al} (cl : Cls src al) {f : Nat} (ih : MainP src al f) 
     cases hA1
     exact ⟨blB, sB2, rfl, hrel⟩
   | next =>
-    obtain ⟨⟨p', hd2⟩, hst⟩ := hrel
+    obtain ⟨⟨p', hd2⟩, hst, hstg⟩ := hrel
     unfold linesCont at hz2
     simp only at hz2
     obtain ⟨u, sA3, hadv, hll⟩ := bind_inv hz2
@@ -583,6 +598,10 @@ theorem lineOpenSome {src al} (cl : Cls src al) {f : Nat} (ih : MainP src al f) 
         rw [show ((k + 1 : Nat) : Int) = (k : Int) + 1 by omega]
         exact this)
       (stable_lineLoop hsl rfl h.ra (padOK_zero _ _) hy)
+      (by
+        obtain ⟨j, _, hcg⟩ := hstg
+        rw [show ((k + 1 : Nat) : Int) = (k : Int) + 1 by omega]
+        exact lstG_next hcg)
     refine ⟨x, sB', ?_, hrel'⟩
     unfold linesCont
     exact eL
@@ -609,7 +628,7 @@ theorem mainP_all {src al} (cl : Cls src al) : ∀ fB, MainP src al fB := by
   | succ f ih =>
     intro k ls sA sB h hsl hpos hfuel sA'
     constructor
-    · intro ho sf lines fo stA hlines hA
+    · intro ho sf lines fo stA hlines hlines0 hA
       cases sf with
       | zero =>
         obtain ⟨_, _, hm, _⟩ := bind_inv hA
@@ -617,9 +636,9 @@ theorem mainP_all {src al} (cl : Cls src al) : ∀ fB, MainP src al fB := by
       | succ sf =>
         rcases hpos with hl | he
         · by_cases hb : isBlank (sub src ls (lineEnd src ls)) = true
-          · exact lineBlankNil cl ih h hsl hl ho hb hfuel sf lines fo stA hA
+          · exact lineBlankNil cl ih h hsl hl ho hb hfuel sf lines fo stA hlines0 hA
           · exact lineOpenNil cl ih h hsl hl ho (by simpa using hb) hfuel sf lines fo stA hlines hA
-        · exact eofNil h he ho f sf lines fo stA hA
+        · exact eofNil h he ho f sf lines fo stA hA _
     · intro ho fi fo stA hA
       cases fi with
       | zero => rw [resume_zero] at hA; cases hA
